@@ -20,6 +20,8 @@ type pspec struct {
 	rg                string // "" | a registered gun factory (real.go)
 	su                string // "" (all instances at once) | step<ms> | inf<ms>
 	blk               string // "" | the call of this pool that blocks and ignores every context (gen3.go)
+	rs                string // "" (once) | step<ms> | past: the tokens of the rps schedule (use.go)
+	do                int    // 1 = discard_overflow
 }
 
 func basePool() pspec {
@@ -43,6 +45,12 @@ func (p pspec) String() string {
 	}
 	if p.blk != "" {
 		s += ",blk:" + p.blk
+	}
+	if p.rs != "" {
+		s += ",rs:" + p.rs
+	}
+	if p.do != 0 {
+		s += ",do:1"
 	}
 	return s
 }
@@ -370,6 +378,16 @@ func randomPlan(r *rand.Rand) planT {
 		if r.Intn(12) == 0 {
 			p.rg = []string{"http", "hs"}[r.Intn(2)]
 		}
+		// round 4: how the schedule hands out its tokens, and discard_overflow
+		if r.Intn(5) == 0 {
+			p.rs = []string{"step1", "step2", "past"}[r.Intn(3)]
+			if p.rs != "past" && p.shots > 10 {
+				p.shots = 4 + r.Intn(5)
+			}
+		}
+		if r.Intn(4) == 0 {
+			p.do = 1
+		}
 		pl.pools = append(pl.pools, p)
 	}
 	if r.Intn(3) == 0 {
@@ -405,6 +423,8 @@ func repsOf(weight int, tier string) int {
 		q, t = 2, 10
 	case 9:
 		q, t = 1, 5
+	case 10: // round 4: many nearly deterministic plans
+		q, t = 2, 12
 	}
 	if tier == "thorough" {
 		return t
@@ -433,6 +453,7 @@ func gen(r *rand.Rand, tier string) []string {
 	emit(systematic())
 	emit(plainRound2())
 	emit(plainRound3())
+	emit(plainRound4())
 	for i := 0; i < nrand/3; i++ {
 		pl := randomBlk(r)
 		for k := 0; k < 2; k++ {
@@ -482,7 +503,7 @@ func class(input, obs string) string {
 				tags = append(tags, t)
 			case strings.HasSuffix(t, ".ctxw"):
 				tags = append(tags, t)
-			case strings.HasPrefix(t, "rg:") || strings.HasPrefix(t, "su:") || strings.HasPrefix(t, "pv:") || strings.HasPrefix(t, "blk:"):
+			case strings.HasPrefix(t, "rg:") || strings.HasPrefix(t, "su:") || strings.HasPrefix(t, "pv:") || strings.HasPrefix(t, "blk:") || strings.HasPrefix(t, "rs:") || strings.HasPrefix(t, "do:"):
 				tags = append(tags, t)
 			}
 		}
